@@ -469,7 +469,7 @@ def check(run):
                         else:
                             got = c11.parse_hexfloat(val)
                             if got is None or got <= 0 or (ev is not None and abs(got - ev) > 4 * c11.ulp(t, ev)):
-                                nulp = float(abs(got - ev) / c11.ulp(t, ev)) if (got is not None and ev is not None) else -1
+                                nulp = core.ffloat(abs(got - ev) / c11.ulp(t, ev)) if (got is not None and ev is not None) else -1
                                 viol("value-off-by-le64ulp" if 0 <= nulp <= 64 else "value", "%s .%s<%s>(%s) = %s differs from the exact ratio by %.3g ulp" % (m["name"], form, t, m["target"], val, nulp), t)
         cnt["dont_care_probes"] += len(dc_probes)
         pres = {}
